@@ -93,6 +93,18 @@ def run(ctx: core.Ctx):
             gname, gdeg = ("", 0.0) if hm is None else (hm.term.name, float(np.asarray(hm.degree)))
             if gname != h["term"] or not feq(gdeg, to_float(h["degree"])):
                 ctx.violation("Variable.highest_membership", {"engine": E["name"], "variable": iv.name, "x": xv}, [h["term"], to_float(h["degree"])], [gname, gdeg])
+        for i, per_term in enumerate(rec.get("discrete") or []):
+            iv = e.input_variables[i]
+            for t, d in zip(iv.terms, per_term):
+                for key, mid in (("mid", True), ("lin", False)):
+                    if any(p[1][0] >= 3 for p in d[key]):
+                        continue
+                    ctx.count()
+                    got = t.discretize(float(iv.minimum), float(iv.maximum), 4, midpoints=mid)
+                    want = [(to_float(p[0]), to_float(p[1])) for p in d[key]]
+                    have = [(float(a), float(b)) for a, b in got.values]
+                    if type(got).__name__ != "Discrete" or got.name != t.name or len(have) != len(want) or any(not feq(a, c) or not feq(b, dd) for (a, b), (c, dd) in zip(have, want)):
+                        ctx.violation(f"Term.discretize/{'midpoints' if mid else 'linspace'}", {"engine": E["name"], "variable": iv.name, "term": t.name}, want, have)
         if rec["activated"] and not rec["raises"] and E["outputs"]:
             try:
                 e.process()
